@@ -34,7 +34,9 @@ def ref_cfg(name, threads, maxops):
 
 def run(v, tier, seed):
     vlib.make("asan", "rc")
+    vlib.make("plain", "rc")
     rc_bin = vlib.binpath("asan", "rc")
+    rc_plain = vlib.binpath("plain", "rc")     # the free-running stress stage needs speed, not ASan
     W = lambda n: vlib.scratch("C10", n)
     tot = {"states": 0, "transitions": 0, "behaviours": 0, "followed": 0, "steps": 0}; mc_notes = []; samples = []
 
@@ -76,8 +78,8 @@ def run(v, tier, seed):
         return (vlib.read_ndjson(rep), accepted, maxline, tr, first), None
 
     def stress(seconds, nt):
-        rep = W("stress.ndjson")
-        code, out, err = vlib.run([rc_bin, "stress", str(seconds), str(nt), str(seed), rep], timeout=seconds + 120)
+        rep = W("stress%d.ndjson" % nt)
+        code, out, err = vlib.run([rc_plain, "stress", str(seconds), str(nt), str(seed), rep], timeout=seconds + 120)
         if code != 0:
             vlib.harness_failed(v, code, out, err, "rc stress (free-running threads)", "stress")
             return [{"summary": True, "rounds": 0}]
@@ -87,7 +89,7 @@ def run(v, tier, seed):
     with cf.ThreadPoolExecutor(max_workers=6) as ex:
         jobs = [ex.submit(ref_mc, 2, 3)] + ([ex.submit(ref_mc, 3, 3)] if tier == "thorough" else [])
         pools = [ex.submit(pool, n, mp) for (n, mp) in ([(2, 0), (2, 1), (2, 3), (3, 2)] if tier == "quick" else [(2, 0), (2, 1), (2, 3), (3, 0), (3, 2), (3, 4)])]
-        f_st = ex.submit(stress, 3 if tier == "quick" else 60, 3)
+        f_sts = [ex.submit(stress, 3 if tier == "quick" else 60, nt) for nt in (2, 3)]
         f_ex = ex.submit(explore, iters, 3 if tier == "quick" else 4, 14, 500 if tier == "quick" else 4000)
         for f in jobs:
             tag, r = f.result(); tot["states"] += r.distinct; tot["transitions"] += r.generated
@@ -104,9 +106,11 @@ def run(v, tier, seed):
                 elif x.get("drift"):
                     v.drift += 1
                     if v.drift <= 3: vlib.log("DRIFT property=C10 %s behaviour %s: %s" % (tag, x.get("behaviour"), x["drift"][:300]))
-        st_rows = f_st.result(); st_rounds = [x for x in st_rows if x.get("summary")][0]["rounds"]
-        for x in st_rows:
-            if x.get("violations"): v.violation("free-running threads (no scheduler): " + "; ".join(x["violations"]), x, tag="stress")
+        st_rounds = 0
+        for f_st in f_sts:
+            st_rows = f_st.result(); st_rounds += [x for x in st_rows if x.get("summary")][0]["rounds"]
+            for x in st_rows:
+                if x.get("violations"): v.violation("free-running threads (no scheduler): " + "; ".join(x["violations"]), x, tag="stress")
         res, san = f_ex.result()
         if san is not None:
             v.violation("sanitizer report while threads share references to pooled objects: " + san[:1500].replace("\n", " | "), {"stderr": san[:6000], "cmd": "rc explore %d ... seed %d" % (iters, seed)}, tag="asan")
